@@ -150,8 +150,67 @@ def create_task(it, coro):
     return t
 
 
-def _datagram_endpoint(it, *a, **k):
-    raise Unsupported("create_datagram_endpoint (not modelled here)")
+class DatagramTransportModel:
+    """asyncio.DatagramTransport: sendto() and close() never raise and never suspend."""
+
+    def __init__(self):
+        self.closed = 0
+
+    def py_truth(self, it):
+        return True
+
+    def py_getattr(self, it, name):
+        if name == "sendto":
+            return Builtin("transport.sendto", lambda data, addr=None: it.path.event("sendto", data, addr, now(it)))
+        if name == "close":
+            def close():
+                self.closed += 1
+                it.path.event("transport.close")
+            return Builtin("transport.close", close)
+        raise it.exc("AttributeError", name)
+
+    def __repr__(self):
+        return "<datagram transport>"
+
+
+def _datagram_endpoint(it, protocol_factory=None, *a, sock=None, **k):
+    """Assumed contract of loop.create_datagram_endpoint(factory, sock=s): suspends, calls the factory once,
+    returns (transport, protocol) for the given socket.  OS failures (OSError) are outside the model."""
+    def run(it2):
+        it2.path.event("create_datagram_endpoint", sock, k)
+        suspend(it2, ("create_datagram_endpoint",))
+        if protocol_factory is None:
+            raise it2.exc("TypeError", "protocol_factory")
+        proto = it2.call(protocol_factory, [], {})
+        tr = DatagramTransportModel()
+        it2.path.event("endpoint", tr, proto, sock)
+        return (tr, proto)
+    return Awaitable("create_datagram_endpoint", run)
+
+
+class SocketModel:
+    """socket.socket(...): records options and the bound address; bind() does not fail (assumption)."""
+
+    def __init__(self, it, args, kwargs):
+        self.args, self.kwargs = args, kwargs
+        self.opts = []
+        self.bound = []
+        it.path.event("socket.socket", self)
+
+    def py_truth(self, it):
+        return True
+
+    def py_getattr(self, it, name):
+        if name == "setsockopt":
+            return Builtin("socket.setsockopt", lambda *a: self.opts.append(tuple(a)))
+        if name == "bind":
+            return Builtin("socket.bind", lambda addr: self.bound.append(addr))
+        if name in ("setblocking", "close"):
+            return Builtin("socket." + name, lambda *a: None)
+        raise it.exc("AttributeError", name)
+
+    def __repr__(self):
+        return "<socket>"
 
 
 class TimeoutCM:
@@ -224,7 +283,13 @@ def make_asyncio_module(b):
         # depend on the order; we keep list order.
         if hasattr(aws, "py_for"):
             return aws
-        return list(it.iterate(aws))
+        items = list(it.iterate(aws))
+        if 2 <= len(items) <= 3:
+            # completion order is the scheduler's choice: every permutation is explored
+            import itertools
+            perms = list(itertools.permutations(items))
+            return list(perms[it.path.choose(len(perms), "as_completed order")])
+        return items
 
     m.ns["as_completed"] = Builtin("asyncio.as_completed", as_completed, True)
 
@@ -254,5 +319,5 @@ def make_socket_module():
     m = Module("socket")
     for n in ("AF_INET", "SOCK_DGRAM", "IPPROTO_UDP", "SOL_SOCKET", "SO_BROADCAST", "SO_REUSEADDR"):
         m.ns[n] = Opaque("socket." + n)
-    m.ns["socket"] = Builtin("socket.socket", lambda *a, **k: Opaque("socket object"))
+    m.ns["socket"] = Builtin("socket.socket", lambda it, *a, **k: SocketModel(it, a, k), True)
     return m
